@@ -588,16 +588,12 @@ func listPageInner(ctx context.Context, tx *bolt.Tx, prefix string, after string
 	var keys []string
 
 	prefixBytes := []byte(prefix)
-	seekPrefix := []byte(filepath.Join(prefix, after))
-	if after == "" {
-		seekPrefix = prefixBytes
-	} else if !bytes.HasPrefix(seekPrefix, prefixBytes) {
-		// filepath.Join has the very unfortunate behavior of trimming the
-		// trailing slash when after=".". When e.g., prefix=foo/, this gives
-		// us seekPrefix=foo, which fails the initial HasPrefix check,
-		// skipping all results.
-		seekPrefix = prefixBytes
-	}
+
+	// Every entry that sorts after 'after' comes from a key that sorts after
+	// prefix+after, so that is where we can start. This must be the plain
+	// concatenation: a cleaned path (filepath.Join) changes the byte order
+	// for values of 'after' such as ".", "./x" or "a/../x" and skips entries.
+	seekPrefix := []byte(prefix + after)
 
 	// Assume bucket exists and has keys
 	c := tx.Bucket(dataBucketName).Cursor()
